@@ -451,6 +451,14 @@ class Command(Accessible):
 
     def __call__(self, func):
         """called when used as decorator"""
+        self._set_optional_members(func)
+        if 'description' not in self.ownProperties and func.__doc__ is not None:
+            self.description = inspect.cleandoc(func.__doc__)
+            self.ownProperties['description'] = self.description
+        self.func = func
+        return self
+
+    def _set_optional_members(self, func):
         if isinstance(self.argument, StructOf):
             # automatically set optional struct members
             sig = inspect.signature(func)
@@ -473,11 +481,6 @@ class Command(Accessible):
                 # on a clone (a method overriding a command) the datatype is built already: it
                 # must not keep the struct of the overridden command, copies are made from it
                 self.datatype = CommandType(self.argument, self.result)
-        if 'description' not in self.ownProperties and func.__doc__ is not None:
-            self.description = inspect.cleandoc(func.__doc__)
-            self.ownProperties['description'] = self.description
-        self.func = func
-        return self
 
     def clone(self, properties, **kwds):
         """return a clone of ourselfs with inherited properties"""
@@ -513,6 +516,10 @@ class Command(Accessible):
         :param merged_properties: dict of properties to be updated
         """
         self.init(merged_properties)
+        if self.func is not None and 'argument' not in self.ownProperties:
+            # a method decorated again without argument inherits the struct: its optional
+            # members follow from this method, not from the overridden one
+            self._set_optional_members(self.func)
         self.finish()
 
     def finish(self, modobj=None):
